@@ -19,6 +19,11 @@ def main():
         if rc != 0:
             print("setup: oracle self-test failed")
             sys.exit(1)
+        p = core.sh([run.vdump, "stubcheck"], check=False, timeout=300)
+        print(p.stdout[-500:])
+        if p.returncode != 0:
+            print("setup: stub validation failed")
+            sys.exit(1)
         print("setup: ok")
     finally:
         run.cleanup()
